@@ -446,6 +446,9 @@ func (w *inotify) readEvents() {
 func (w *inotify) handleEvent(inEvent *unix.InotifyEvent, buf *[65536]byte, offset uint32) (Event, bool) {
 	w.mu.Lock()
 	defer w.mu.Unlock()
+	if w.isClosed() { // Close() was called since this was read; w.fd may be closed (or someone else's) by now.
+		return Event{}, false
+	}
 
 	/// If the event happened to the watched directory or the watched file, the
 	/// kernel doesn't append the filename to the event, but we would like to
